@@ -67,7 +67,7 @@ func (z zvH) Apply(c vrt.ConcCall) (r vrt.ConcRes) {
 }
 
 func (z zvH) Observe(_ []int) []int {
-	var out []int
+	out := []int{z.h.Size()}
 	for i := 0; i < 8 && z.h.Size() > 0; i++ {
 		out = append(out, z.h.Pop())
 	}
